@@ -80,19 +80,20 @@ class ReferenceImpl(Derivable, Impl):
     def on_inherit(self, updater, bases):
 
         self.model.clear_obj(self)
+        refmode = bases[0].refmode
         if bases[0].has_interface():
 
-            if self.refmode == "absolute":
+            if refmode == "absolute":
                 self.interface = bases[0].interface
                 self.is_relative = False
             else:
                 is_relative, interface = updater.get_relative_interface(
                     self.parent,
                     bases[0])
-                if self.refmode == "auto":
+                if refmode == "auto":
                     self.is_relative = is_relative
                     self.interface = interface
-                elif self.refmode == "relative":
+                elif refmode == "relative":
                     if is_relative:
                         self.is_relative = is_relative
                         self.interface = interface
@@ -105,6 +106,7 @@ class ReferenceImpl(Derivable, Impl):
                     raise ValueError("must not happen")
         else:
             self.interface = bases[0].interface
+        self.refmode = refmode
         self.container.notify()
 
 
